@@ -61,6 +61,7 @@ def c03(run):
                              "touching/nested/crossing holes, multipolygons, nested collections, each also in a second "
                              "representation (ring start, direction, hole/member order, similarity); (Multi)LineString "
                              "simplicity; NaN/Inf ordinates. Non-trivial = non-empty; distinct by hash of the case"}
+    run.model_check("MC_Geometry", cfg="MC_Geometry.cfg", timeout=900)
     family_enumerated(run, "valid", "Gen_Valid", "Trace_Valid", gen_cfg=tier_n(run, "Gen_Valid.cfg", "Gen_Valid_full.cfg"))
     family_enumerated(run, "valid", "Gen_Holes", "Trace_Valid", label="holes")
     family_enumerated(run, "valid", "Gen_Rings", "Trace_Valid", label="rings", gen_cfg=tier_n(run, "Gen_Rings.cfg", "Gen_Rings_full.cfg"))
